@@ -208,12 +208,20 @@ type verifE1 struct {
 	sawDuplicate                                                  bool
 	everLocked                                                    int
 
+	fwdPkgs [2][]verifFwdPkgRec // forwarding packages returned by ReceiveRevocation
+
 	capacityMsat lnwire.MilliSatoshi
 	anchorsSat   int64
 	initOwned    [2]lnwire.MilliSatoshi // initial msat owned (balance + fee/anchors for opener)
 	commitHist   map[string]*verifCommitSnap
 
 	fundingPkScript []byte
+}
+
+type verifFwdPkgRec struct {
+	Height      uint64
+	Adds        int
+	SettleFails int
 }
 
 type verifE1Hooks struct {
@@ -228,6 +236,7 @@ type verifE1Hooks struct {
 func (e *verifE1) on(oracle string) bool { return e.oracles == nil || e.oracles[oracle] }
 
 func (e *verifE1) viol(oracle, key, detail string) {
+	e.debugDump(oracle + " " + key)
 	e.vc.Violation(oracle, key, detail, e.witness())
 	e.ended = true
 	e.endReason = "violation:" + oracle
@@ -1007,10 +1016,14 @@ func (e *verifE1) actDeliver(from int, crashAfterRecv bool) (needRestart bool) {
 		e.lastRev[to] = &verifE1RevRec{Seq: seq, Rev: rev}
 		e.recordHeld(to)
 	case *lnwire.RevokeAndAck:
-		_, _, err := p.ch.ReceiveRevocation(msg)
+		fwdPkg, _, err := p.ch.ReceiveRevocation(msg)
 		if err != nil {
 			fail("ReceiveRevocation", err)
 			return false
+		}
+		if fwdPkg != nil {
+			e.fwdPkgs[to] = append(e.fwdPkgs[to], verifFwdPkgRec{Height: fwdPkg.Height,
+				Adds: len(fwdPkg.Adds), SettleFails: len(fwdPkg.SettleFails)})
 		}
 		if e.lastRev[from] != nil {
 			e.lastRev[from].Processed = true
@@ -1123,6 +1136,15 @@ func (e *verifE1) reconnect(label string, stripDLP bool) bool {
 		msgs, _, _, err := p.ch.ProcessChanSyncMsg(context.Background(), sync[1-i])
 		if e.hooks.onSync != nil {
 			e.hooks.onSync(e, i, msgs, err)
+		}
+		if err != nil && verifIsConstraint(err) {
+			// ProcessChanSyncMsg signs a fresh commitment when it owes
+			// one; a constraint rejection there is the same
+			// simultaneous-update hazard as at an ordinary sign.
+			e.constraintTm = true
+			e.ended = true
+			e.endReason = "constraint inside ProcessChanSyncMsg: " + err.Error()
+			return false
 		}
 		if err != nil {
 			e.viol("sync_error", "ProcessChanSyncMsg:"+e.errClass(err),
